@@ -8,8 +8,11 @@ op line:   diag <name> <opts> <dims> <in0> [<in1> ...]
   in<k>  key=vector;key=vector   keys: obs fcst pit p@<threshold> q@<level> e@<member>; arrays flattened (T,L,X)
 
 Artists are read back from the figure that is current when Output._save_plot is called (patched from
-here), i.e. before anything is written or closed.  Every call of Axes.plot / Axes.bar / Axes.scatter is
-tagged (from here, by wrapping the matplotlib methods) with the innermost verif function that issued it.
+here), i.e. before anything is written or closed.  Every call of Axes.plot / Axes.bar / Axes.scatter /
+Axes.fill is tagged (from here, by wrapping the matplotlib methods) with the innermost verif function that
+issued it.  Filled polygons (the shaded bands of verif.util.fill) are read back from the Polygon patch that
+lives in the axes; matplotlib closes a polygon by repeating its first vertex, which is undone by comparing
+the stored vertex count with the number of points the call was given.
 """
 import math
 import os
@@ -196,6 +199,15 @@ def install():
     wrap("bar", "bar")
     wrap("scatter", "pts")
 
+    orig_fill = matplotlib.axes.Axes.fill
+
+    def wrapped_fill(self, *a, **k):
+        res = orig_fill(self, *a, **k)
+        n = len(a[0]) if a and hasattr(a[0], "__len__") else None
+        _calls.append(("poly", (res, n), _verif_caller()))
+        return res
+    matplotlib.axes.Axes.fill = wrapped_fill
+
     def save_plot(self, data):
         _last["records"] = read_figure()
     verif.output.Output._save_plot = save_plot
@@ -219,6 +231,17 @@ def read_figure():
                             "y": np.asarray(ln.get_ydata(), float).flatten(), "src": src,
                             "alpha": ln.get_alpha(), "ls": ln.get_linestyle(), "zorder": ln.get_zorder(),
                             "color": ln.get_color()})
+        elif kind == "poly":
+            polys, n = res
+            for pg in polys:
+                if pg.axes is None or pg.axes not in axes or pg not in pg.axes.patches:
+                    continue
+                xy = np.asarray(pg.get_xy(), float).reshape(-1, 2)
+                if n is not None and len(xy) == n + 1:
+                    xy = xy[:-1]                     # the closing vertex matplotlib appended
+                out.append({"ax": axes.index(pg.axes), "kind": "poly", "label": str(pg.get_label() or ""),
+                            "x": xy[:, 0], "y": xy[:, 1], "src": src, "alpha": pg.get_alpha(),
+                            "zorder": pg.get_zorder()})
         elif kind == "bar":
             ps = [p for p in res.patches if p.axes is not None and p.axes in axes]
             if not ps and len(res.patches):
@@ -240,6 +263,23 @@ def read_figure():
     return out
 
 
+def fill_direct(x, lower, upper):
+    """verif.util.fill on a fresh Agg figure; -> records of the polygons that are in the axes afterwards"""
+    install()
+    import matplotlib.pyplot as mpl
+    import verif.util
+    del _calls[:]
+    mpl.figure()
+    try:
+        with warnings.catch_warnings():
+            warnings.simplefilter("ignore")
+            verif.util.fill(np.array(x, float), np.array(lower, float), np.array(upper, float), "r", alpha=0.3)
+        return [r for r in read_figure() if r["kind"] == "poly"]
+    finally:
+        del _calls[:]
+        mpl.close("all")
+
+
 def render(name, opts, ds):
     """run the real diagram on an in-memory Data; -> (records, input names)"""
     install()
@@ -254,6 +294,32 @@ def render(name, opts, ds):
             getattr(pl, PLOT_METHOD.get(name, "plot"))(data)
     mpl.close("all")
     return _last.get("records", []), data.get_legend()
+
+
+def render_seq(items, ds):
+    """several diagrams drawn one after the other from ONE verif.data.Data object (API use: a script that makes a
+    number of figures of the same data).  items: [(name, opts)]; -> [(records, input names) | "ERR" | "EXC:<Type>"]"""
+    install()
+    import matplotlib.pyplot as mpl
+    out = []
+    with warnings.catch_warnings():
+        warnings.simplefilter("ignore")
+        with np.errstate(all="ignore"):
+            data = build_data(ds)
+            for name, opts in items:
+                del _calls[:]
+                _last.clear()
+                try:
+                    pl = make_output(name, opts, data)
+                    getattr(pl, PLOT_METHOD.get(name, "plot"))(data)
+                    out.append((_last.get("records", []), data.get_legend()))
+                except SystemExit:
+                    out.append("ERR")
+                except Exception as e:
+                    out.append("EXC:%s" % type(e).__name__)
+                mpl.close("all")
+    del _calls[:]
+    return out
 
 
 # ------------------------------------------------------------------ text files + command line
@@ -360,6 +426,8 @@ def select(name, recs, names):
             keep = True                                      # lines of the 2nd, 3rd ... quantile
         elif name in ("autocorr", "autocov") and core and r["kind"] == "line":
             keep = True
+        elif name in ("obsfcst", "meteo") and r["kind"] == "poly" and r["src"] == "fill":
+            keep = True                                      # the shaded band between two quantile lines
         if name == "pithist" and r["kind"] == "line":
             keep = False
         if name == "igncontrib" and r["kind"] == "line" and r["ax"] == 0 and not named:
